@@ -10,7 +10,18 @@ Restricted Rust-subset parser (python3 standard library only):
 Anything it cannot parse is reported as an error (exit 1): the check then fails loudly instead of
 silently skipping a type.
 
-usage: c19_serde2coq.py --repo /repo --out coq/gen/C19_types.v [--json out.json] [--summary]
+Every `serde(...)` attribute is looked up in ATTRS (the attributes serde_derive 1.0.x accepts, with the places
+where it accepts them). A name outside the table, or at a place where the table does not allow it, is emitted as
+("unsupported", "<name> <arg>") and announced on stdout: the Gallina model classifies it as opaque, so that the proof
+obligation `all_declared_lossless` breaks instead of passing silently. The table itself is emitted as
+`parser_attr_names` (theorem `attribute_table_complete`: the model has a case for every name the parser can emit).
+Renames (`rename`, `rename(serialize = .., deserialize = ..)`, `rename_all`, `rename_all_fields`, variant-level
+`rename_all`, `alias`) are resolved here into the name written (`wire`) and the names accepted on reading (`de`).
+
+`--zoo FILE`: the text between the lines `// ZOO-BEGIN` and `// ZOO-END` of FILE (the harness' own attribute zoo:
+small types that carry every modelled attribute) is translated in the same way into `zoo_declared`.
+
+usage: c19_serde2coq.py --repo /repo --out coq/gen/C19_types.v [--zoo harness/src/bin/c19.rs] [--json out.json] [--summary]
 """
 import json
 import os
@@ -174,10 +185,28 @@ def text(toks):
 
 
 # ------------------------------------------------------------------ attributes
+# every attribute serde_derive 1.0.x accepts -> the places where it accepts it (c = container, v = variant, f = field)
+ATTRS = {
+    "crate": "c", "bound": "cvf", "expecting": "c", "borrow": "vf", "deny_unknown_fields": "c", "alias": "vf", "other": "v",
+    "rename": "cvf", "rename_all": "cv", "rename_all_fields": "c",
+    "skip": "vf", "skip_serializing": "vf", "skip_deserializing": "vf", "skip_serializing_if": "f", "default": "cf",
+    "with": "vf", "serialize_with": "vf", "deserialize_with": "vf", "flatten": "f", "transparent": "c",
+    "untagged": "cv", "tag": "c", "content": "c", "from": "c", "try_from": "c", "into": "c", "remote": "c", "getter": "f",
+    "variant_identifier": "c", "field_identifier": "c",
+}
+# names the translator itself produces
+SYNTHETIC = ["rename_asymmetric", "rename_all_unknown_rule", "unsupported"]
+UNSUPPORTED_SEEN = []
+
+
 class Attrs:
     def __init__(self):
         self.derives = set()      # under the serde feature or unconditionally
         self.serde = []           # [(name, argtext)]
+        self.ren = {}             # rename:      {"serialize": x, "deserialize": y}
+        self.ren_all = {}         # rename_all:  {"serialize": rule, "deserialize": rule}
+        self.ren_all_fields = {}  # rename_all_fields (enum containers)
+        self.aliases = []
         self.cfg_serde = None     # True: cfg(feature = "serde"); False: cfg(not(feature = "serde"))
         self.cfg_off = False      # cfg(test): not part of the library build
         self.cfg_unknown = None   # any other cfg predicate (an error when it guards a serialisable item/field)
@@ -234,15 +263,27 @@ def absorb_attr(a, toks):
         return
     if head == "serde":
         for name, arg, rest in parse_meta_items(inner):
-            if name == "rename" and rest and rest[0].v == "(":
-                sub = dict((n, v) for n, v, _ in parse_meta_items(rest[1:-1]))
-                s, d = sub.get("serialize"), sub.get("deserialize")
-                if s is not None and d is not None and s == d:
-                    a.serde.append(("rename", s))
+            if name in ("rename", "rename_all", "rename_all_fields"):
+                tgt = {"rename": a.ren, "rename_all": a.ren_all, "rename_all_fields": a.ren_all_fields}[name]
+                if rest and rest[0].v == "(":
+                    sub = dict((n, unquote(v)) for n, v, _ in parse_meta_items(rest[1:-1]))
+                    for k in ("serialize", "deserialize"):
+                        if k in sub:
+                            tgt[k] = sub[k]
+                    if set(sub) - {"serialize", "deserialize"}:
+                        a.serde.append(("unsupported", "%s %s" % (name, arg)))
+                        UNSUPPORTED_SEEN.append((toks[0].line, name, arg))
                 else:
-                    a.serde.append(("rename_asymmetric", arg))
-            else:
+                    tgt["serialize"] = tgt["deserialize"] = unquote(arg)
                 a.serde.append((name, arg))
+            elif name == "alias":
+                a.aliases.append(unquote(arg))
+                a.serde.append((name, arg))
+            elif name in ATTRS:
+                a.serde.append((name, arg))
+            else:
+                a.serde.append(("unsupported", ("%s %s" % (name, arg)).strip()))
+                UNSUPPORTED_SEEN.append((toks[0].line, name, arg))
         return
     a.other.append(head)
 
@@ -280,8 +321,10 @@ def rename_all(rule, name, is_variant):
     else:
         words = [w for w in name.split("_") if w]
     low = [w.lower() for w in words]
+    if not is_variant and rule in ("lowercase", "snake_case"):
+        return name                    # serde: field names are taken to be snake_case already
     if rule == "lowercase":
-        return "".join(low) if is_variant else name.lower()
+        return "".join(low)
     if rule == "UPPERCASE":
         return "".join(low).upper() if is_variant else name.upper()
     if rule == "PascalCase":
@@ -299,7 +342,41 @@ def rename_all(rule, name, is_variant):
     return None
 
 
-def parse_fields(toks, named, container_rename_all):
+def place_check(attrs, place, line):
+    """attributes that serde_derive does not accept at this place (c / v / f) become `unsupported`"""
+    out = []
+    for (n, v) in attrs:
+        if n in ATTRS and place not in ATTRS[n]:
+            out.append(("unsupported", ("%s %s (not accepted here)" % (n, v)).strip()))
+            UNSUPPORTED_SEEN.append((line, n, v))
+        else:
+            out.append((n, v))
+    return out
+
+
+def resolve_names(name, a, ra, is_variant, renamable):
+    """-> (name written, [names accepted on reading], extra attributes).
+    `a`: the item's own Attrs; `ra`: {"serialize": rule, "deserialize": rule} inherited from rename_all (may be empty)."""
+    extra = []
+    out = {}
+    for side in ("serialize", "deserialize"):
+        if side in a.ren:
+            out[side] = a.ren[side]
+        elif renamable and side in ra:
+            w = rename_all(ra[side], name, is_variant)
+            if w is None:
+                extra.append(("rename_all_unknown_rule", ra[side]))
+                w = name
+            out[side] = w
+        else:
+            out[side] = name
+    if a.ren and a.ren.get("serialize", name) != a.ren.get("deserialize", name):
+        extra.append(("rename_asymmetric", "serialize = %s, deserialize = %s" % (out["serialize"], out["deserialize"])))
+    de = [out["deserialize"]] + [x for x in a.aliases if x != out["deserialize"]]
+    return out["serialize"], de, extra
+
+
+def parse_fields(toks, named, ra):
     fields = []
     for part in split_commas(toks):
         if not part:
@@ -319,19 +396,9 @@ def parse_fields(toks, named, container_rename_all):
         else:
             name = str(idx)
             ty = text(part[i:])
-        wire = name
-        attrs = []
-        for (n, v) in a.serde:
-            if n == "rename":
-                wire = unquote(v)
-            attrs.append((n, v))
-        if named and container_rename_all is not None and not any(n == "rename" for n, _ in a.serde):
-            w = rename_all(container_rename_all, name, False)
-            if w is None:
-                attrs.append(("rename_all_unknown_rule", container_rename_all))
-            else:
-                wire = w
-        fields.append({"name": name, "wire": wire, "ty": ty, "attrs": attrs})
+        wire, de, extra = resolve_names(name, a, ra or {}, False, named)
+        attrs = place_check(a.serde, "f", part[0].line) + extra
+        fields.append({"name": name, "wire": wire, "de": de, "ty": ty, "attrs": attrs})
     return fields
 
 
@@ -368,13 +435,14 @@ def parse_item(toks, i, attrs, path):
                     j += 1
         return j
     j = skip_where(j)
-    cra = None
-    cattrs = []
-    for (n, v) in attrs.serde:
-        if n == "rename_all":
-            cra = v
-        cattrs.append((n, v))
-    decl = {"name": name, "file": path, "line": line, "generics": generics,
+    cattrs = place_check(attrs.serde, "c", line)
+    cra = dict(attrs.ren_all)
+    if attrs.ren and attrs.ren.get("serialize", name) != attrs.ren.get("deserialize", name):
+        cattrs.append(("rename_asymmetric", "serialize = %s, deserialize = %s" % (attrs.ren.get("serialize", name), attrs.ren.get("deserialize", name))))
+    for rule in sorted(set(list(attrs.ren_all.values()) + list(attrs.ren_all_fields.values()))):
+        if rename_all(rule, "a_b", False) is None:
+            cattrs.append(("rename_all_unknown_rule", rule))
+    decl = {"name": name, "wire": attrs.ren.get("serialize", name), "file": path, "line": line, "generics": generics,
             "ser": "Serialize" in attrs.derives, "de": "Deserialize" in attrs.derives,
             "cfg_serde": attrs.cfg_serde, "attrs": cattrs}
     if kw == "struct":
@@ -390,7 +458,7 @@ def parse_item(toks, i, attrs, path):
             j += 1
         elif toks[j].v == "{":
             k = balanced(toks, j)
-            decl.update(kind="named", fields=parse_fields(toks[j + 1:k - 1], True, cra))
+            decl.update(kind="named", fields=parse_fields(toks[j + 1:k - 1], True, cra if kw == "struct" else {}))
             j = k
         else:
             raise SyntaxError("cannot parse struct %s at line %d" % (name, line))
@@ -408,18 +476,10 @@ def parse_item(toks, i, attrs, path):
             if a.cfg_unknown is not None:
                 raise SyntaxError("variant under an unknown cfg predicate `%s` at line %d" % (a.cfg_unknown, part[0].line))
             vname = part[p].v
-            wire = vname
-            vattrs = []
-            for (n, v) in a.serde:
-                if n == "rename":
-                    wire = unquote(v)
-                vattrs.append((n, v))
-            if cra is not None and not any(n == "rename" for n, _ in a.serde):
-                w = rename_all(cra, vname, True)
-                if w is None:
-                    vattrs.append(("rename_all_unknown_rule", cra))
-                else:
-                    wire = w
+            wire, vde, extra = resolve_names(vname, a, cra, True, True)
+            vattrs = place_check(a.serde, "v", part[0].line) + extra
+            # names of the fields of a struct variant: the variant's own rename_all, else the container's rename_all_fields
+            fra = dict(a.ren_all) if a.ren_all else dict(attrs.ren_all_fields)
             rest = part[p + 1:]
             if not rest or rest[0].v == "=":
                 vk, vf = "unit", []
@@ -429,11 +489,11 @@ def parse_item(toks, i, attrs, path):
                 vk = "newtype" if len(vf) == 1 else "tuple"
             elif rest[0].v == "{":
                 e = balanced(rest, 0)
-                vf = parse_fields(rest[1:e - 1], True, None)
+                vf = parse_fields(rest[1:e - 1], True, fra)
                 vk = "named"
             else:
                 raise SyntaxError("cannot parse variant %s::%s line %d" % (name, vname, part[0].line))
-            variants.append({"name": vname, "wire": wire, "kind": vk, "fields": vf, "attrs": vattrs})
+            variants.append({"name": vname, "wire": wire, "de": vde, "kind": vk, "fields": vf, "attrs": vattrs})
         decl.update(kind="enum", variants=variants)
         j = k
     return decl, j
@@ -524,8 +584,9 @@ def expand_simple_macros(toks):
     return out
 
 
-def scan_file(path, rel):
-    src = open(path, encoding="utf8").read()
+def scan_file(path, rel, src=None):
+    if src is None:
+        src = open(path, encoding="utf8").read()
     toks = expand_simple_macros(tokenize(src))
     decls, plain, impls = [], [], []
     i, n = 0, len(toks)
@@ -648,26 +709,30 @@ def coq_attrs(attrs):
     return "[" + "; ".join("(%s, %s)" % (cstr(n), cstr(v)) for n, v in attrs) + "]"
 
 
+def coq_strs(l):
+    return "[" + "; ".join(cstr(x) for x in l) + "]"
+
+
 def coq_fields(fields):
     return "[" + ";\n        ".join(
-        "mkF %s %s %s %s" % (cstr(f["name"]), cstr(f["wire"]), cstr(f["ty"]), coq_attrs(f["attrs"])) for f in fields) + "]"
+        "mkF %s %s %s %s %s" % (cstr(f["name"]), cstr(f["wire"]), coq_strs(f["de"]), cstr(f["ty"]), coq_attrs(f["attrs"])) for f in fields) + "]"
 
 
 KIND = {"unit": "KUnit", "newtype": "KNewtype", "tuple": "KTuple", "named": "KNamed"}
 
 
 def coq_decl(d):
-    head = "mkT %s %s %s %s %s" % (cstr(d["name"]), cstr("%s:%d" % (d["file"], d["line"])),
+    head = "mkT %s %s %s %s %s %s" % (cstr(d["name"]), cstr(d["wire"]), cstr("%s:%d" % (d["file"], d["line"])),
                                    "true" if d["ser"] else "false", "true" if d["de"] else "false", coq_attrs(d["attrs"]))
     if d["kind"] == "enum":
-        vs = ";\n      ".join("mkV %s %s %s %s\n       %s" % (cstr(v["name"]), cstr(v["wire"]), KIND[v["kind"]], coq_attrs(v["attrs"]),
+        vs = ";\n      ".join("mkV %s %s %s %s %s\n       %s" % (cstr(v["name"]), cstr(v["wire"]), coq_strs(v["de"]), KIND[v["kind"]], coq_attrs(v["attrs"]),
                                                              coq_fields(v["fields"])) for v in d["variants"])
         return "  %s\n    (BEnum [%s])" % (head, vs)
     return "  %s\n    (BStruct %s\n       %s)" % (head, KIND[d["kind"]], coq_fields(d["fields"]))
 
 
 def main(argv):
-    repo, out, jout, summary = "/repo", None, None, False
+    repo, out, jout, summary, zoo = "/repo", None, None, False, None
     i = 0
     while i < len(argv):
         if argv[i] == "--repo":
@@ -678,6 +743,8 @@ def main(argv):
             jout = argv[i + 1]; i += 2
         elif argv[i] == "--summary":
             summary = True; i += 1
+        elif argv[i] == "--zoo":
+            zoo = argv[i + 1]; i += 2
         else:
             print("unknown argument", argv[i]); return 2
     decls, plain, impls, errors = [], [], [], []
@@ -709,6 +776,23 @@ def main(argv):
         for e in errors:
             print("serde2coq: PARSE ERROR " + e)
         return 1
+    repo_unsupported = list(UNSUPPORTED_SEEN)
+    zoo_decls = []
+    if zoo:
+        ztxt = open(zoo, encoding="utf8").read()
+        if "// ZOO-BEGIN" in ztxt and "// ZOO-END" in ztxt:
+            ztxt = ztxt[ztxt.index("// ZOO-BEGIN"):ztxt.index("// ZOO-END")]
+            try:
+                zoo_decls, _, _ = scan_file(zoo, os.path.basename(zoo), ztxt)
+            except (SyntaxError, IndexError) as e:
+                print("serde2coq: PARSE ERROR in the attribute zoo %s: %s" % (zoo, e))
+                return 1
+        else:
+            print("serde2coq: no ZOO-BEGIN / ZOO-END block in %s" % zoo)
+            return 1
+    for line, n, v in repo_unsupported:
+        print("serde2coq: UNSUPPORTED serde attribute `%s %s` (line %d of some translated file): emitted as (\"unsupported\", ...); "
+              "the model treats it as opaque and all_declared_lossless will not hold" % (n, v, line))
     decls.sort(key=lambda d: (d["file"], d["line"]))
     names = {}
     for d in decls:
@@ -750,7 +834,7 @@ def main(argv):
                                               ",".join(n for n, _ in d["attrs"]), body))
         print("duplicates:", dup, "unsat bounds:", unsat, "count:", len(decls))
     if jout:
-        json.dump({"declared": decls, "unsatisfiable_bounds": unsat}, open(jout, "w"), indent=1)
+        json.dump({"declared": decls, "zoo": zoo_decls, "unsatisfiable_bounds": unsat}, open(jout, "w"), indent=1)
     if out:
         lines = ["(* GENERATED by tools/c19_serde2coq.py from the Rust sources of the repository - do not edit. *)",
                  "From Coq Require Import List String.",
@@ -759,6 +843,14 @@ def main(argv):
                  "Definition declared : list type_decl := ["]
         lines.append(";\n".join(coq_decl(d) for d in decls))
         lines.append("].")
+        lines.append("")
+        lines.append("(* the harness' own attribute zoo (harness/src/bin/c19.rs between ZOO-BEGIN and ZOO-END) *)")
+        lines.append("Definition zoo_declared : list type_decl := [")
+        lines.append(";\n".join(coq_decl(d) for d in zoo_decls))
+        lines.append("].")
+        lines.append("")
+        lines.append("(* every attribute name the translator can emit: serde_derive's own attributes and the translator's synthetic ones *)")
+        lines.append("Definition parser_attr_names : list string := " + coq_strs(sorted(ATTRS) + SYNTHETIC) + ".")
         lines.append("")
         lines.append("(* (type, field/variant, bound head): serde(bound) predicates over a crate-local type without any serde impl *)")
         lines.append("Definition unsatisfiable_bounds : list (string * string * string) := [" +
